@@ -39,8 +39,8 @@ func c05Drivers() []concParams {
 		// "victim first": the first client is preempted at every statement (statement granularity,
 		// one deviation) while the second client and then all background work run to quiescence
 		// before it resumes - the shape of a read after an unlock, of a reference taken too late
-		{Name: "get-preempted-by-flush", Cfg: "flushy/bytewise", Pre: []string{"put:b"}, Clients: [][]string{{"get:a", "get:b"}, {"put:a", "put:a"}}, QB: 2, TB: 3, SQ: 1, ST: 2},
-		{Name: "iter-preempted-by-flush", Cfg: "flushy/bytewise", Pre: []string{"put:b"}, Clients: [][]string{{"iterscan"}, {"put:a", "put:a"}}, QB: 2, TB: 3, SQ: 1, ST: 2},
+		{Name: "get-preempted-by-flush", Cfg: "flushy/bytewise", Pre: []string{"put:a", "put:b"}, Clients: [][]string{{"get:a", "get:b"}, {"put:a", "put:a"}}, QB: 2, TB: 3, SQ: 1, ST: 2},
+		{Name: "iter-preempted-by-flush", Cfg: "flushy/bytewise", Pre: []string{"put:a", "put:b"}, Clients: [][]string{{"iterscan"}, {"put:a", "put:a"}}, QB: 2, TB: 3, SQ: 1, ST: 2},
 		{Name: "snapshot-preempted-by-compaction", Cfg: "flushy/bytewise", Pre: []string{"put:a", "put:b", "q"}, Clients: [][]string{{"snapget:a,b,a"}, {"put:a", "cr"}}, QB: 1, TB: 2, SQ: 1, ST: 1},
 		{Name: "write-preempted-by-writer", Cfg: "roomy/bytewise", Clients: [][]string{{"put:a", "get:a"}, {"put:a", "w:+a,+b"}}, QB: 2, TB: 3, SQ: 1, ST: 2},
 		{Name: "get-preempted-by-transaction", Cfg: "bigbatch/bytewise", Pre: []string{"put:a"}, Clients: [][]string{{"get:a", "get:b"}, {"tr:+a,+b"}}, QB: 2, TB: 3, SQ: 1, ST: 1},
